@@ -118,6 +118,30 @@ def check_main(ctx, lib, c):
     if k >= R:
         ctx.event("class/k>=r")
     expect(got == exp, "%s/value" % sig, lambda: "k=%x t=%x z=%r affine=%r got=%r expected=%r" % (k, b["t"], b["z"], b["aff"], got, exp))
+    # two follow-up calls through the same entry point, related to the first one the way a caller's next call often is: the negated base
+    # in the same representative (same x and z, other y), and the result of the first call as the next base with another scalar. A
+    # multiplication is a function of its arguments; tables or decompositions remembered from the previous call must not leak in.
+    k2 = (k * 0x9E3779B97F4A7C15 + b["t"] + 1) % (1 << 256)
+    K2 = conv.bi(k2, 256)
+    nP = C.neg(P, KK(g)) if P is not None else None
+    img_n = base_image(lib, g, b, nP)
+    if route == "capi":
+        out_n = capi(lib, name, psz, img_n, K2)[1]
+    else:
+        out_n = lib.op(name, img_n, K2)[1]
+    exp_n = C.gen_mul(g, (-b["t"] * k2) % R)
+    expect(b_proj(g, out_n) == exp_n, "%s/after-related-call/negated-base" % sig, lambda: "first [k]P with k=%x t=%x, then [k2](-P) with k2=%x: wrong result" % (k, b["t"], k2))
+    if not b["aff"]:
+        if route == "capi":
+            out_c = capi(lib, name, psz, out, K2)[1]
+        else:
+            out_c = lib.op(name, out, K2)[1]
+        expect(b_proj(g, out_c) == C.gen_mul(g, b["t"] * k * k2), "%s/after-related-call/result-as-base" % sig, lambda: "[k2]([k]P) with k=%x k2=%x t=%x: wrong result" % (k, k2, b["t"]))
+        if route != "capi":
+            # the same chain with the first multiplication done in place (R = P; R = [k]R; S = [k2]R)
+            out_i = lib.op(name, img, K, alias="a")[1]
+            out_j = lib.op(name, out_i, K2)[1]
+            expect(b_proj(g, out_j) == C.gen_mul(g, b["t"] * k * k2), "%s/after-related-call/in-place-then-result-as-base" % sig, lambda: "R=[k]R in place, then [k2]R with k=%x k2=%x t=%x: wrong result" % (k, k2, b["t"]))
 
 
 # ---- wNAF / table / double-and-add on any width ------------------------------------------------
